@@ -293,6 +293,40 @@ def main(argv):
         with cf.ThreadPoolExecutor(max_workers=min(4, len(units))) as ex:
             canaries = [c for c in ex.map(canary_unit, units) if c]
 
+    # thorough tier only: (a) every unit is re-verified under two other solver seeds (proof stability),
+    # (b) contract-strength self test: mutants of the extracted repository code must fail some obligation (vf/selfmut.py)
+    stability = []
+    selftest = None
+    if tier == 'thorough':
+        for inf in infos:
+            if inf['status'] != 'ok' or inf['r'] is None or inf['r'].failures:
+                continue
+            for sd in (7, 13):
+                wd = os.path.join(WORK, 'v', '%s.seed%d.%d' % (inf['unit'], sd, os.getpid()))
+                try:
+                    r2 = verus.run(inf['u'].text(), wd, inf['unit'], seed=sd, census=False)
+                finally:
+                    shutil.rmtree(wd, ignore_errors=True)
+                stability.append({'unit': inf['unit'], 'seed': sd, 'verified': r2.verified, 'ok': bool(r2.ok), 'smt_ms': r2.smt_ms})
+        try:
+            from . import selfmut
+            tot = {'mutants': 0, 'killed': 0, 'survived': 0, 'stillborn': 0, 'survivors': [], 'units': []}
+            for inf in infos:
+                if inf['status'] != 'ok':
+                    continue
+                sm = selfmut.selfmut_unit(inf['unit'])
+                rs = [x for x in sm['results'] if prop in (x['props'] or [])]
+                tot['units'].append(inf['unit'])
+                tot['mutants'] += len(rs)
+                for k in ('killed', 'survived', 'stillborn'):
+                    tot[k] += sum(x['outcome'] == k for x in rs)
+                tot['survivors'] += [{k: x[k] for k in ('function', 'file', 'line', 'mutation', 'source')} for x in rs if x['outcome'] == 'survived']
+            tot['note'] = ('mutants are single syntactic changes of repository lines inside functions under contract; a survivor is either an '
+                           'equivalent mutant or behaviour the contracts do not pin down; informational, never a violation')
+            selftest = tot
+        except Exception as e:   # noqa
+            selftest = {'error': str(e)}
+
     kf = [k for k in load_known_findings() if k.get('property') == prop and k.get('status', 'open') == 'open']
     failures = []
     undecided = []
@@ -430,6 +464,8 @@ def main(argv):
             'undecided_units': undecided,
             'proof_lost': bool(undecided),
             'vacuity_canaries': canaries,
+            'seed_stability': stability,
+            'mutation_selftest': selftest,
             'failed_obligations': [f.to_json() for _, f in failures],
             'known_findings': known_lines,
             'witness_layer': ({k: v for k, v in wit.items() if k != 'failing'} if wit else None),
@@ -450,8 +486,10 @@ def main(argv):
         n = (wit or {}).get('cases', 0)
         ev['coverage']['evaluations'] = max(1, n)
         ev['coverage']['distinct_nontrivial'] = max(2, n)
-    os.makedirs(os.path.join(VERIF, 'evidence'), exist_ok=True)
-    with open(os.path.join(VERIF, 'evidence', prop + '.json'), 'w') as fh:
+    # seedtest runs (a deliberately broken /repo) must not overwrite the evidence of the real tree
+    evdir = os.environ.get('VERIF_EVIDENCE_DIR') or os.path.join(VERIF, 'evidence')
+    os.makedirs(evdir, exist_ok=True)
+    with open(os.path.join(evdir, prop + '.json'), 'w') as fh:
         json.dump(ev, fh, indent=1)
     print('%s: %s  obligations=%d discharged=%d units=%s wall=%.1fs' % (
         prop, {0: 'HOLDS', 1: 'VIOLATED', 2: 'UNDECIDED'}[rc], obligations, discharged, ','.join(units), time.time() - t0))
